@@ -11,6 +11,7 @@ import (
 	"os"
 	"sort"
 	"strings"
+	"unicode"
 
 	"github.com/mattn/go-runewidth"
 	"golang.org/x/term"
@@ -746,7 +747,20 @@ func truncateToWidth(s string, maxWidth int) string {
 
 // formatCollapsedEpicLine formats a done epic as a single collapsed line.
 // Format: ├ Ⓔ  ✓ Epic title [3 tasks]                                    EPICID
+// oneLine makes user-supplied text safe inside a single terminal row: every
+// control character (line breaks, tabs, escapes) and the Unicode line and
+// paragraph separators become a space.
+func oneLine(s string) string {
+	return strings.Map(func(r rune) rune {
+		if unicode.IsControl(r) || r == '\u2028' || r == '\u2029' {
+			return ' '
+		}
+		return r
+	}, s)
+}
+
 func formatCollapsedEpicLine(prefix, connector string, showConnector bool, id, title, countStr string, useColor bool, termWidth int) string {
+	title = oneLine(title)
 	// Layout contract: ids are right-aligned at idStart.
 	minGap := idMinGap
 	rightMargin := idRightMargin
@@ -830,6 +844,15 @@ func formatCollapsedEpicLine(prefix, connector string, showConnector bool, id, t
 // Visual hierarchy: icon → title → @claimer → [blocker column] → ID (right-aligned)
 // Ensures the line never exceeds termWidth by truncating content as needed.
 func formatTreeLine(prefix, connector string, showConnector bool, icon, id, title string, annotations []string, blockerAnnotation string, task *Task, isReady bool, useColor bool, termWidth int) string {
+	// One item, one row: text supplied by users may contain line breaks and
+	// other control characters, which would split the row or move the cursor.
+	title = oneLine(title)
+	blockerAnnotation = oneLine(blockerAnnotation)
+	cleaned := make([]string, len(annotations))
+	for i, annotation := range annotations {
+		cleaned[i] = oneLine(annotation)
+	}
+	annotations = cleaned
 	// Layout contract: ids are right-aligned at idStart.
 	minGap := idMinGap
 	rightMargin := idRightMargin
